@@ -1,6 +1,6 @@
 (* Comp/Assemble.v — model of TealOp.assemble / TealLabel.assemble / TealPragma.assemble. *)
 From Coq Require Import List NArith Ascii String Bool.
-From PV Require Import Base.Bytes Base.Sexp AVM.Syntax.
+From PV Require Import Base.Bytes Base.Sexp AVM.Syntax Comp.SplitLines.
 Import ListNotations.
 Local Open Scope string_scope.
 
@@ -32,11 +32,17 @@ Definition assemble_instr (i : instr) : option string :=
 
 Definition nl : string := String (ascii_of_N 10) EmptyString.
 
+(* TealLabel.assemble (since /repo 3627216): one comment line per line of the comment text,
+   lines = comment.splitlines() or [""] *)
+Definition label_comment (cm : string) : string :=
+  String.concat "" (map (fun ln => "// " ++ ln ++ nl)
+                        (match splitlines cm with [] => [""] | ls => ls end)).
+
 Definition assemble_comp (c : comp) : option string :=
   match c with
   | COp i => assemble_instr i
   | CLabel l None => Some (l ++ ":")
-  | CLabel l (Some cm) => Some (nl ++ "// " ++ cm ++ nl ++ l ++ ":")
+  | CLabel l (Some cm) => Some (nl ++ label_comment cm ++ l ++ ":")
   | CPragma v => Some ("#pragma version " ++ N_to_dec v)
   end.
 
